@@ -10,11 +10,12 @@ TRUST = [
 
 PROPS = {
     "C05": {
-        "rules": ["KEY", "LOOKUP", "FIFO", "REGISTRATION", "MSGKIND", "IDALLOC", "RSP-VARIANT", "SHORTFORM-EXACT"],
-        "filters": {"IDALLOC": r":rmw|:injective|floor", "SHORTFORM-EXACT": r"AckRx|floor"},
+        "rules": ["KEY", "LOOKUP", "FIFO", "REGISTRATION", "MSGKIND", "IDALLOC", "RSP-VARIANT", "SHORTFORM-EXACT", "THRESH", "HANDSHAKE-QOS2"],
+        "filters": {"IDALLOC": r":rmw|:injective|floor", "SHORTFORM-EXACT": r"AckRx|floor", "THRESH": r"ContextHandle|floor", "HANDSHAKE-QOS2": r"pubrel-after-good|pubrel-always|floor"},
         "explanation": "Static rules over MIR: KEY (symbolic key expressions of tx_action_id / rx_action_id agree per request->acknowledgement pair of the standard, injective bit layout), "
                        "LOOKUP (every completion is sent on the sender removed at linear_search_by_key(awaiting_ack, rx_action_id(same packet))), FIFO (who may mutate Session collections and how), "
-                       "REGISTRATION (per-path: written => exactly one registration; refused => none), MSGKIND (message kind / key / channel per handle operation).",
+                       "REGISTRATION (per-path: written => exactly one registration; refused => none), MSGKIND (message kind / key / channel per handle operation), "
+                       "THRESH / HANDSHAKE-QOS2 on the publish operation (an acknowledgement below 0x80 is a success: QoS 2 goes on to PUBREL / PUBCOMP, i.e. completes on the acknowledgement of its own type).",
         "not_decided": "the claim over all interleavings of polls and acknowledgements as executions; the rules establish the keyed lookup discipline that makes order irrelevant",
         "assumptions": TRUST,
     },
@@ -27,10 +28,10 @@ PROPS = {
         "assumptions": TRUST,
     },
     "C09": {
-        "rules": ["Q2DEDUP", "ACK-TABLE", "FIFO", "ADAPTER"],
-        "filters": {"FIFO": r"unreleased|floor"},
+        "rules": ["Q2DEDUP", "ACK-TABLE", "ACK-COUNT", "ACK-CTRL", "FIFO", "ADAPTER"],
+        "filters": {"FIFO": r"unreleased|floor", "ACK-COUNT": r"arm=Publish|floor", "ACK-CTRL": r"Pubrec|floor"},
         "explanation": "Necessary structural condition on MIR: delivery of an inbound QoS 2 PUBLISH must be control dependent on a membership test of Session-owned state keyed by the packet identifier, "
-                       "with add on first delivery and removal in the PUBREL arm; PUBREC/PUBCOMP reply table.",
+                       "with add on first delivery and removal in the PUBREL arm, record and delivery before any suspension point; PUBREC/PUBCOMP reply table; a re-delivery is still answered with PUBREC (ACK-COUNT / ACK-CTRL of the PUBLISH arm).",
         "not_decided": "history-level exactness of the set once it exists (beyond the add/test/remove discipline)",
         "assumptions": TRUST,
     },
@@ -75,10 +76,10 @@ PROPS = {
         "assumptions": TRUST,
     },
     "C13": {
-        "rules": ["EXITS", "EXITS-EXPLICIT", "EXITS-OK", "FIRST-RESPONSE", "THRESH", "CONV", "WRITE", "SHORTFORM-EXACT", "REPARSE"],
+        "rules": ["EXITS", "EXITS-EXPLICIT", "EXITS-OK", "EXITS-END", "FIRST-RESPONSE", "THRESH", "CONV", "WRITE", "SHORTFORM-EXACT", "REPARSE"],
         "filters": {"WRITE": r"WRITE:site:|floor", "SHORTFORM-EXACT": r"DisconnectRx|floor"},
         "explanation": "Complete table of the exits of Context::run (recursively through handle_packet / handle_message / ack / retransmit), each classified by the residual error type of its `?` and what produced it; explicit returns; "
-                       "required Ok(()) exits and what they are control dependent on; first-response table of connect()/authorize(); reason thresholds; From<..> for MqttError variant table.",
+                       "required Ok(()) exits and what they are control dependent on; the end of the request queue / packet stream ends run() at once (EXITS-END); first-response table of connect()/authorize(); reason thresholds; From<..> for MqttError variant table.",
         "not_decided": "'at every reachable session state': the exits do not consult session state, which is stated rather than explored",
         "assumptions": TRUST,
     },
@@ -90,8 +91,8 @@ PROPS = {
         "assumptions": TRUST,
     },
     "C15": {
-        "rules": ["EXITS", "QUOTA-INC", "DISPATCH", "REGISTRATION", "ENQUEUE-ALWAYS", "FIFO"],
-        "explanation": "No exit of run() is caused by a failed completion or delivery (EXITS classifies every `?`); the quota release does not depend on the lookup or on the completion having been delivered; a failed delivery only removes that subscription.",
+        "rules": ["EXITS", "EXITS-EXPLICIT", "QUOTA-INC", "DISPATCH", "REGISTRATION", "ENQUEUE-ALWAYS", "FIFO"],
+        "explanation": "No exit of run() is caused by a failed completion or delivery (EXITS classifies every `?`, EXITS-EXPLICIT every explicit error return of the handlers: only a server DISCONNECT != 0); the quota release does not depend on the lookup or on the completion having been delivered; a failed delivery only removes that subscription.",
         "not_decided": "'other operations complete with their own acknowledgements' under all interleavings (follows from KEY/LOOKUP of C05 once the context keeps running)",
         "assumptions": TRUST,
     },
@@ -140,12 +141,12 @@ PROPS = {
         "filters": {"LEGAL": r"LEGAL:tx:", "MANDATORY": r"Tx|floor"},
     },
     "C02": {
-        "rules": ["LEGAL", "LEGAL-ARM", "IDS", "REASONS", "DEFAULTS", "MANDATORY", "SHORTFORM", "SHORTFORM-EXACT", "MULTI", "ACCESSOR", "PUBID", "BITS", "REPARSE", "VARINT-ERR", "VARINT-OK"],
+        "rules": ["LEGAL", "LEGAL-ARM", "IDS", "REASONS", "DEFAULTS", "MANDATORY", "SHORTFORM", "SHORTFORM-EXACT", "MULTI", "ACCESSOR", "PUBID", "BITS", "REPARSE", "VARINT-ERR", "VARINT-OK", "UTF8-BYTES"],
         "filters": {"LEGAL": r"LEGAL:rx:|floor", "MANDATORY": r"Rx|floor", "BITS": r"publish-decode|type-nibble|floor"},
         "explanation": "Decoder structure on MIR: accepted property set per receive decoder = the standard's legal set (order-free property loop), wire type per property identifier, reason enums = TryFrom<u8> maps = the standard's code sets, "
                        "defaults of absent properties, mandatory parts of inbound packets, shortened forms (tail decodes do not dominate every success exit), multiplicity (collections for repeatable properties), "
-                       "accessors read exactly the field they are named after, PUBLISH header masks / shifts, packet identifier iff QoS > 0.",
-        "not_decided": "numeric / value equality of decoded primitives over all inputs, UTF-8 handling, payloads crossing the receive buffer (runtime values; primitives have boundary tests)",
+                       "accessors read exactly the field they are named after, PUBLISH header masks / shifts, packet identifier iff QoS > 0; the string decoders validate with the standard library and refuse no string for a byte that occurs in well-formed multi-byte UTF-8 (byte predicates evaluated on all 256 values).",
+        "not_decided": "numeric / value equality of decoded primitives over all inputs, UTF-8 validation itself (std), payloads crossing the receive buffer (runtime values; primitives have boundary tests)",
         "assumptions": TRUST,
         "filters": {"LEGAL": r"LEGAL:rx:|floor", "MANDATORY": r"Rx|floor", "BITS": r"publish-decode|type-nibble|floor"},
     },
